@@ -205,7 +205,58 @@ def scalar_kind_compatible(pk, ck):
     return False
 
 
+def rule_shortcut_injective(ctx):
+    """R18.9: documented shortcut names of a string-valued setter (Simulation.integrator: WH, WHC, WHCKL, WHCKM, WHCKC, ...)
+    stand for different configurations. The setter is evaluated for every string constant its if/elif chain compares the
+    value with; two names that leave exactly the same assignments behind are one configuration under two names - one of
+    the documented methods cannot be selected."""
+    import ast
+    from . import pyeval
+    db = pyfront.pydb()
+    cls = db.classes.get('Simulation')
+    anchor(cls is not None, 'class Simulation')
+    n = 0
+    for fn in [x for x in ast.walk(cls.node if hasattr(cls, 'node') else db.files[cls.path]) if isinstance(x, ast.FunctionDef)]:
+        if not any(isinstance(d, ast.Attribute) and d.attr == 'setter' for d in fn.decorator_list):
+            continue
+        if len(fn.args.args) != 2:
+            continue
+        param = fn.args.args[1].arg
+        consts = []
+        for c in ast.walk(fn):
+            if isinstance(c, ast.Compare) and isinstance(c.left, ast.Name) and c.left.id == param and len(c.ops) == 1 and isinstance(c.ops[0], ast.Eq) \
+                    and isinstance(c.comparators[0], ast.Constant) and isinstance(c.comparators[0].value, str):
+                consts.append(c.comparators[0].value)
+        if len(consts) < 2:
+            continue
+        outcome = {}
+        for k in consts:
+            # the chain lower-cases its argument first: evaluate the body below that statement with the constant itself
+            body = [st for st in ast.walk(fn) if isinstance(st, ast.If) and any(isinstance(x, ast.Compare) and isinstance(x.left, ast.Name) and x.left.id == param and isinstance(x.comparators[0], ast.Constant) and x.comparators[0].value == k for x in ast.walk(st.test))]
+            if not body:
+                continue
+            holder = ast.FunctionDef(name='_', args=fn.args, body=[body[0]], decorator_list=[], lineno=fn.lineno)
+            for env, r in pyeval.paths(holder, {param: [k]}):
+                if r.done == 'raise':
+                    continue
+                sets = tuple(sorted((t, repr(v)) for t, v in r.env.items() if t.startswith('self.') and v is not pyeval.UNK))
+                if sets:
+                    outcome[k] = sets
+            n += 1
+        inv = {}
+        for k, sets in outcome.items():
+            inv.setdefault(sets, []).append(k)
+        for sets, ks in sorted(inv.items()):
+            if len(ks) > 1:
+                ctx.report('R18.9', '%s:%s' % (fn.name, '='.join(sorted(ks))), 'rebound/simulation.py:%d Simulation.%s (setter)' % (fn.lineno, fn.name),
+                           'the names %s configure exactly the same thing (%s): one of them cannot be what its name documents' % (' and '.join(repr(k) for k in sorted(ks)), ', '.join('%s=%s' % kv for kv in sets)))
+    ctx.covered('R18.9', 'string shortcuts of Simulation setters: distinct names leave distinct configurations', n, floor=5)
+
+
 def run(ctx):
+    rule_shortcut_injective(ctx)
+    from . import c16
+    c16.rule_python_parameters(ctx, 'R18.8')      # no parameter of the Python layer is silently ignored
     db = pyfront.pydb()
     recs = layout.record_layouts()
     tus = cfront.load_tus(['rebound.c', 'tools.c', 'rotations.c', 'particle.c', 'integrator_trace.c',
